@@ -6,5 +6,5 @@ Emit == (nreq = MaxReqs /\ \A c \in Clients : inflight[c] = None) =>
                    [kind |-> hist[i].r.kind,
                     ep |-> IF hist[i].r.kind = "query" THEN hist[i].r.ep ELSE "insert_bin",
                     outcome |-> IF hist[i].r.kind = "query" THEN hist[i].r.outcome ELSE "ok",
-                    status |-> hist[i].r.status, snap |-> hist[i].r.snap]]])>>)
+                    nq |-> hist[i].r.nq, status |-> hist[i].r.status, snap |-> hist[i].r.snap]]])>>)
 =============================================================================
